@@ -3,17 +3,18 @@ package rendergen
 import (
 	"fmt"
 	"go/ast"
-	"go/parser"
-	"go/token"
 	"strings"
 )
 
 // ---------------------------------------------------------------- environment
 
 type binding struct {
+	id     int // identity of the declaration (clones of a binding share it)
 	coq    string
 	t      typ
-	frozen bool // its address was taken: may not be assigned any more
+	frozen bool // its address was taken / it was sliced: may not be assigned any more
+	ptr    bool // declared with a pointer type: copying the pointer would alias
+	cval   *val // a function-local constant / the variable of an unrolled loop: used by value
 	// a struct parameter / receiver: the fields used become parameters <name>_<field>
 	flat  bool
 	used  map[string]typ
@@ -55,10 +56,32 @@ func (e env) get(key string) *binding {
 		return b.fields[key[i+1:]]
 	}
 	b := e[key]
-	if b == nil || b.fields != nil || b.flat {
+	if b == nil || b.fields != nil || b.flat || b.cval != nil {
 		return nil
 	}
 	return b
+}
+
+// the bindings visible now (shared, not copied): what a scope is restored to when it ends
+func (e env) snapshot() env {
+	c := env{}
+	for k, v := range e {
+		c[k] = v
+	}
+	return c
+}
+
+// restore ends a scope: names declared since the snapshot disappear, shadowed ones reappear
+func (e env) restore(saved env) {
+	for k, v := range e {
+		s, ok := saved[k]
+		switch {
+		case !ok:
+			delete(e, k)
+		case s.id != v.id:
+			e[k] = s
+		}
+	}
 }
 
 type fctx struct {
@@ -72,9 +95,81 @@ type fctx struct {
 	recv   string   // mutator: the receiver variable, returned at every exit
 	cut    bool     // prefix target: the cut was reached
 	inLoop int
-	trace  bool   // trace target: the result is the list of events
-	evT    [2]typ // payload types of RgCall / RgOut
-	evSet  [2]bool
+	tloop  int      // traced loops (flat_map) being translated
+	trace  bool     // trace target: the result is the list of events
+	ev     *evTypes // payload types of RgCall / RgOut (shared with the helpers inlined into a trace target)
+	sh     *shared  // counters shared with inlined helpers
+	marks  map[*ast.EmptyStmt]markFn
+	frames []*unrollFrame // unrolled loops being translated (innermost last)
+}
+
+type evTypes struct {
+	t   [2]typ
+	set [2]bool
+}
+
+// state shared by a function and the helpers inlined into it
+type shared struct {
+	nid      int             // binding identities
+	fresh    map[string]int  // fresh Gallina names
+	inlining map[string]bool // helpers being inlined (recursion guard)
+}
+
+// a marker statement spliced into a statement list: it produces the translation of everything
+// after it (scope ends, the next iteration of an unrolled loop)
+type markFn func(e env, k *cont, ind string) (out string, done bool, err error)
+
+type unrollFrame struct {
+	level int    // f.inLoop + f.tloop when the loop was entered
+	next  markFn // continue
+	brk   markFn // break
+}
+
+func (f *fctx) share() *shared {
+	if f.sh == nil {
+		f.sh = &shared{fresh: map[string]int{}, inlining: map[string]bool{}}
+	}
+	return f.sh
+}
+
+// newBinding declares goName in e.  A name that is already visible is being shadowed (or, in a
+// tuple `:=`, re-used, which is the same thing for the code after it): it gets a Gallina name of its
+// own so that the outer variable is still there when the scope ends.
+func (f *fctx) newBinding(e env, goName string, t typ) *binding {
+	sh := f.share()
+	sh.nid++
+	b := &binding{id: sh.nid, t: t, coq: coqIdent(goName)}
+	if _, shadow := e[goName]; shadow {
+		sh.fresh[goName]++
+		b.coq = fmt.Sprintf("%s_%d", strings.TrimSuffix(coqIdent(goName), "_"), sh.fresh[goName])
+	}
+	e[goName] = b
+	return b
+}
+
+func (f *fctx) mark(fn markFn) ast.Stmt {
+	if f.marks == nil {
+		f.marks = map[*ast.EmptyStmt]markFn{}
+	}
+	m := &ast.EmptyStmt{Implicit: true}
+	f.marks[m] = fn
+	return m
+}
+
+// endScope is the marker closing the scope opened at the current state of e
+func (f *fctx) endScope(e env) ast.Stmt {
+	saved := e.snapshot()
+	return f.mark(func(e2 env, k *cont, ind string) (string, bool, error) {
+		e2.restore(saved)
+		return "", false, nil
+	})
+}
+
+// block is list as a scope of its own followed by rest
+func (f *fctx) block(list []ast.Stmt, e env, rest []ast.Stmt) []ast.Stmt {
+	out := append([]ast.Stmt{}, list...)
+	out = append(out, f.endScope(e))
+	return append(out, rest...)
 }
 
 func (f *fctx) errf(n ast.Node, format string, a ...interface{}) error {
@@ -143,1284 +238,4 @@ func (f *fctx) structField(n ast.Node, b *binding, goVar, name string) (val, err
 	return val{}, f.errf(n, "field %s.%s is read before it is assigned", goVar, name)
 }
 
-// ---------------------------------------------------------------- statement analysis
-
-// cont: what a statement list yields when control falls off its end: the current values of vars
-// (a branch of an if statement / a loop body).  nil = the function body.
-type cont struct {
-	vars []string
-	loop bool // the body of a loop: `continue` yields the same
-}
-
-func stmtList(s ast.Stmt) []ast.Stmt {
-	switch x := s.(type) {
-	case nil:
-		return nil
-	case *ast.BlockStmt:
-		return x.List
-	}
-	return []ast.Stmt{s}
-}
-
-// every path through the list ends in a return (or, in a loop body, a continue)
-func terminates(list []ast.Stmt) bool {
-	if len(list) == 0 {
-		return false
-	}
-	switch x := list[len(list)-1].(type) {
-	case *ast.ReturnStmt:
-		return true
-	case *ast.BranchStmt:
-		return x.Tok == token.CONTINUE && x.Label == nil
-	case *ast.IfStmt:
-		return x.Else != nil && terminates(x.Body.List) && terminates(stmtList(x.Else))
-	}
-	return false
-}
-
-func containsExit(list []ast.Stmt) bool {
-	found := false
-	for _, s := range list {
-		ast.Inspect(s, func(n ast.Node) bool {
-			switch x := n.(type) {
-			case *ast.FuncLit:
-				return false
-			case *ast.ForStmt, *ast.RangeStmt:
-				// a continue inside a nested loop belongs to that loop; a return does not
-				ast.Inspect(n, func(m ast.Node) bool {
-					if _, ok := m.(*ast.ReturnStmt); ok {
-						found = true
-					}
-					return true
-				})
-				return false
-			case *ast.ReturnStmt:
-				found = true
-			case *ast.BranchStmt:
-				_ = x
-				found = true
-			}
-			return true
-		})
-	}
-	return found
-}
-
-func lhsKey(l ast.Expr) (string, bool) {
-	switch x := l.(type) {
-	case *ast.Ident:
-		return x.Name, true
-	case *ast.IndexExpr:
-		return lhsKey(x.X)
-	case *ast.SelectorExpr:
-		if id, ok := x.X.(*ast.Ident); ok {
-			return id.Name + "." + x.Sel.Name, true
-		}
-	case *ast.ParenExpr:
-		return lhsKey(x.X)
-	}
-	return "", false
-}
-
-// variables of the enclosing scopes assigned by the list, in order of first assignment.  A key
-// "x.f" is reduced to "x" when x is a plain local (p.X = ..) by the caller's env.
-func (f *fctx) assignedOuter(list []ast.Stmt, e env, declared map[string]bool, out *[]string) error {
-	local := map[string]bool{}
-	for k := range declared {
-		local[k] = true
-	}
-	add := func(n ast.Node, l ast.Expr) error {
-		key, ok := lhsKey(l)
-		if !ok {
-			return f.errf(n, "unsupported assignment target %s", exprString(l))
-		}
-		root := key
-		if i := strings.Index(key, "."); i >= 0 {
-			root = key[:i]
-			if b := e[root]; b != nil && b.fields == nil {
-				key = root // field of a vector-valued local: the local is assigned
-			}
-		}
-		if key == "_" || local[root] {
-			return nil
-		}
-		*out = appendOnce(*out, key)
-		return nil
-	}
-	for _, s := range list {
-		switch x := s.(type) {
-		case *ast.AssignStmt:
-			for _, l := range x.Lhs {
-				if id, ok := l.(*ast.Ident); ok && x.Tok == token.DEFINE {
-					local[id.Name] = true
-					continue
-				}
-				if err := add(x, l); err != nil {
-					return err
-				}
-			}
-		case *ast.IncDecStmt:
-			if err := add(x, x.X); err != nil {
-				return err
-			}
-		case *ast.DeclStmt:
-			if gd, ok := x.Decl.(*ast.GenDecl); ok {
-				for _, sp := range gd.Specs {
-					if vs, ok := sp.(*ast.ValueSpec); ok {
-						for _, n := range vs.Names {
-							local[n.Name] = true
-						}
-					}
-				}
-			}
-		case *ast.IfStmt:
-			if err := f.assignedOuter(x.Body.List, e, local, out); err != nil {
-				return err
-			}
-			if err := f.assignedOuter(stmtList(x.Else), e, local, out); err != nil {
-				return err
-			}
-		case *ast.ForStmt:
-			inner := map[string]bool{}
-			for k := range local {
-				inner[k] = true
-			}
-			if as, ok := x.Init.(*ast.AssignStmt); ok && as.Tok == token.DEFINE {
-				for _, l := range as.Lhs {
-					if id, ok := l.(*ast.Ident); ok {
-						inner[id.Name] = true
-					}
-				}
-			}
-			if err := f.assignedOuter(x.Body.List, e, inner, out); err != nil {
-				return err
-			}
-		case *ast.RangeStmt:
-			inner := map[string]bool{}
-			for k := range local {
-				inner[k] = true
-			}
-			if x.Tok == token.DEFINE {
-				for _, l := range []ast.Expr{x.Key, x.Value} {
-					if id, ok := l.(*ast.Ident); ok {
-						inner[id.Name] = true
-					}
-				}
-			}
-			if err := f.assignedOuter(x.Body.List, e, inner, out); err != nil {
-				return err
-			}
-		}
-	}
-	return nil
-}
-
-func declares(list []ast.Stmt) bool {
-	for _, s := range list {
-		switch x := s.(type) {
-		case *ast.AssignStmt:
-			if x.Tok == token.DEFINE {
-				return true
-			}
-		case *ast.DeclStmt:
-			return true
-		}
-	}
-	return false
-}
-
-func indentMore(s string) string { return "  " + strings.ReplaceAll(s, "\n", "\n  ") }
-
-func sameVars(a, b []string) bool {
-	if len(a) != len(b) {
-		return false
-	}
-	for i := range a {
-		if a[i] != b[i] {
-			return false
-		}
-	}
-	return true
-}
-
-func callsOf(s ast.Stmt, name string) bool {
-	found := false
-	ast.Inspect(s, func(n ast.Node) bool {
-		if c, ok := n.(*ast.CallExpr); ok && exprString(c.Fun) == name {
-			found = true
-		}
-		return true
-	})
-	return found
-}
-
-// the tuple (or single value) of the current values of vars
-func (f *fctx) yield(n ast.Node, vars []string, e env) (string, error) {
-	var vs []string
-	for _, v := range vars {
-		b := e.get(v)
-		if b == nil {
-			return "", f.errf(n, "%s is not a plain variable here", v)
-		}
-		vs = append(vs, b.coq)
-	}
-	if len(vs) == 1 {
-		return vs[0], nil
-	}
-	return "(" + strings.Join(vs, ", ") + ")", nil
-}
-
-func (f *fctx) pattern(n ast.Node, vars []string, e env) (pat string, ty string, err error) {
-	var ns, ts []string
-	for _, v := range vars {
-		b := e.get(v)
-		if b == nil {
-			return "", "", f.errf(n, "assignment to %s: not a plain local variable of this function", v)
-		}
-		if b.frozen {
-			return "", "", f.errf(n, "assignment to %s after its address was taken", v)
-		}
-		ns, ts = append(ns, b.coq), append(ts, b.t.coqAtom())
-	}
-	if len(ns) == 1 {
-		return ns[0], ts[0], nil
-	}
-	return "'(" + strings.Join(ns, ", ") + ")", "(" + strings.Join(ts, " * ") + ")%type", nil
-}
-
-// ---------------------------------------------------------------- assignment
-
-// assign translates `lhs = v` and returns the `let` line
-func (f *fctx) assign(n ast.Node, lhs ast.Expr, v val, define bool, e env, ind string) (string, error) {
-	switch l := lhs.(type) {
-	case *ast.ParenExpr:
-		return f.assign(n, l.X, v, define, e, ind)
-	case *ast.Ident:
-		if l.Name == "_" {
-			return "", nil
-		}
-		var err error
-		if define {
-			if v, err = f.deflt(n, v); err != nil {
-				return "", err
-			}
-			if v.t.k == kOpaque || v.t.k == kStruct || v.t.k == kUnit || v.t.k == kOpt {
-				return "", f.errf(n, "variable %s of type %s", l.Name, v.t.goName())
-			}
-			e[l.Name] = &binding{coq: coqIdent(l.Name), t: v.t}
-		} else {
-			b := e.get(l.Name)
-			if b == nil {
-				return "", f.errf(n, "assignment to %s, which is not a plain local variable", l.Name)
-			}
-			if b.frozen {
-				return "", f.errf(n, "assignment to %s after its address was taken", l.Name)
-			}
-			if v, err = f.coerce(n, v, b.t); err != nil {
-				return "", err
-			}
-			if !b.t.eq(v.t) {
-				return "", f.errf(n, "assignment of %s to %s %s", v.t.goName(), b.t.goName(), l.Name)
-			}
-		}
-		return ind + "let " + e[l.Name].coq + " := " + v.s + " in\n", nil
-	case *ast.IndexExpr:
-		key, ok := lhsKey(l.X)
-		var b *binding
-		if ok {
-			b = e.get(key)
-		}
-		if _, nested := l.X.(*ast.IndexExpr); nested || b == nil {
-			return "", f.errf(n, "unsupported assignment target %s", exprString(lhs))
-		}
-		if b.frozen {
-			return "", f.errf(n, "assignment to %s after its address was taken", key)
-		}
-		var err error
-		switch {
-		case b.t.k == kTup && b.t.arr:
-			i, ok := constIndex(l.Index)
-			if !ok || i < 0 || i >= len(b.t.args) {
-				return "", f.errf(n, "index of a %s must be a literal in range", b.t.goName())
-			}
-			if v, err = f.coerce(n, v, b.t.args[i]); err != nil {
-				return "", err
-			}
-			if !v.t.eq(b.t.args[i]) {
-				return "", f.errf(n, "assignment of %s to an element of %s", v.t.goName(), b.t.goName())
-			}
-			var ps []string
-			for j := range b.t.args {
-				if j == i {
-					ps = append(ps, v.s)
-				} else {
-					ps = append(ps, proj(b.coq, len(b.t.args), j))
-				}
-			}
-			return ind + "let " + b.coq + " := (" + strings.Join(ps, ", ") + ") in\n", nil
-		case b.t.k == kList:
-			iv, err := f.expr(l.Index, e)
-			if err != nil {
-				return "", err
-			}
-			if iv, err = f.coerce(n, iv, tInt); err != nil {
-				return "", err
-			}
-			if iv.t.k != kInt {
-				return "", f.errf(n, "index of type %s", iv.t.goName())
-			}
-			if v, err = f.coerce(n, v, b.t.args[0]); err != nil {
-				return "", err
-			}
-			if !v.t.eq(b.t.args[0]) {
-				return "", f.errf(n, "assignment of %s to an element of %s", v.t.goName(), b.t.goName())
-			}
-			return ind + "let " + b.coq + " := (zupd " + b.coq + " " + iv.s + " " + v.s + ") in\n", nil
-		}
-		return "", f.errf(n, "index assignment to %s", b.t.goName())
-	case *ast.SelectorExpr:
-		id, ok := l.X.(*ast.Ident)
-		if !ok {
-			return "", f.errf(n, "unsupported assignment target %s", exprString(lhs))
-		}
-		b := e[id.Name]
-		if b == nil || b.flat {
-			return "", f.errf(n, "unsupported assignment target %s", exprString(lhs))
-		}
-		if b.fields != nil {
-			return f.setField(n, b, id.Name, l.Sel.Name, v, ind)
-		}
-		if b.frozen {
-			return "", f.errf(n, "assignment to %s after its address was taken", id.Name)
-		}
-		// p.X = e on a vector-valued local
-		var names []string
-		var mk string
-		switch b.t.k {
-		case kV2:
-			names, mk = []string{"X:vx", "Y:vy"}, "mkV2"
-		case kV3:
-			names, mk = []string{"X:wx", "Y:wy", "Z:wz"}, "mkV3"
-		default:
-			return "", f.errf(n, "assignment to field %s of %s", l.Sel.Name, b.t.goName())
-		}
-		var err error
-		if v, err = f.coerce(n, v, tT); err != nil {
-			return "", err
-		}
-		if v.t.k != kT {
-			return "", f.errf(n, "assignment of %s to a float64 field", v.t.goName())
-		}
-		var ps []string
-		hit := false
-		for _, nm := range names {
-			parts := strings.Split(nm, ":")
-			if parts[0] == l.Sel.Name {
-				ps, hit = append(ps, v.s), true
-			} else {
-				ps = append(ps, "("+parts[1]+" "+b.coq+")")
-			}
-		}
-		if !hit {
-			return "", f.errf(n, "field %s of %s", l.Sel.Name, b.t.goName())
-		}
-		return ind + "let " + b.coq + " := (" + mk + " " + strings.Join(ps, " ") + ") in\n", nil
-	}
-	return "", f.errf(n, "unsupported assignment target %s", exprString(lhs))
-}
-
-func (f *fctx) setField(n ast.Node, b *binding, goVar, name string, v val, ind string) (string, error) {
-	st := f.p.structs[b.structName]
-	var ft *typ
-	for _, fl := range st.Fields.List {
-		for _, fn := range fl.Names {
-			if fn.Name == name {
-				t, err := f.goType(fl.Type)
-				if err != nil {
-					return "", f.errf(n, "field %s.%s: %v", b.structName, name, err)
-				}
-				ft = &t
-			}
-		}
-	}
-	if ft == nil {
-		return "", f.errf(n, "%s has no field %s", b.structName, name)
-	}
-	var err error
-	if v, err = f.coerce(n, v, *ft); err != nil {
-		return "", err
-	}
-	if !v.t.eq(*ft) {
-		return "", f.errf(n, "assignment of %s to field %s.%s of type %s", v.t.goName(), goVar, name, ft.goName())
-	}
-	c := b.coq + "_" + name
-	b.fields[name] = &binding{coq: c, t: *ft}
-	return ind + "let " + c + " := " + v.s + " in\n", nil
-}
-
-// the current value of a (target of an) operator assignment
-func (f *fctx) current(lhs ast.Expr, e env) (val, error) { return f.expr(lhs, e) }
-
-// ---------------------------------------------------------------- statements
-
-// stmts translates a statement list into one Gallina expression; every line is indented by ind.
-func (f *fctx) stmts(list []ast.Stmt, e env, k *cont, ind string) (string, error) {
-	if len(list) == 0 {
-		if k == nil && f.trace {
-			return ind + "[]", nil
-		}
-		if k == nil {
-			return f.fallOff(ind, e)
-		}
-		y, err := f.yield(nil2(f), k.vars, e)
-		return ind + y, err
-	}
-	st, rest := list[0], list[1:]
-	// prefix target: stop before the first statement calling opt.Upto
-	if k == nil && f.opt != nil && f.opt.Upto != "" && f.inLoop == 0 && callsOf(st, f.opt.Upto) {
-		return f.cutHere(st, e, ind)
-	}
-	next := func(pre string) (string, error) {
-		r, err := f.stmts(rest, e, k, ind)
-		if err != nil {
-			return "", err
-		}
-		return pre + r, nil
-	}
-	if f.trace && k == nil && f.inLoop == 0 {
-		if out, ok, err := f.traceStmt(st, rest, e, ind); ok || err != nil {
-			return out, err
-		}
-	}
-	switch s := st.(type) {
-	case *ast.EmptyStmt:
-		return f.stmts(rest, e, k, ind)
-
-	case *ast.DeclStmt:
-		gd, ok := s.Decl.(*ast.GenDecl)
-		if !ok || gd.Tok != token.VAR {
-			return "", f.errf(s, "unsupported declaration")
-		}
-		var lets string
-		for _, sp := range gd.Specs {
-			vs := sp.(*ast.ValueSpec)
-			if len(vs.Values) != 0 || vs.Type == nil {
-				return "", f.errf(s, "var declaration with initial values (use :=)")
-			}
-			t, err := f.goType(vs.Type)
-			if err != nil {
-				return "", f.errf(s, "%v", err)
-			}
-			z, ok := t.zero()
-			if !ok {
-				return "", f.errf(s, "var declaration of %s", t.goName())
-			}
-			for _, n := range vs.Names {
-				e[n.Name] = &binding{coq: coqIdent(n.Name), t: t}
-				lets += ind + "let " + coqIdent(n.Name) + " := " + z + " in\n"
-			}
-		}
-		return next(lets)
-
-	case *ast.IncDecStmt:
-		cur, err := f.current(s.X, e)
-		if err != nil {
-			return "", err
-		}
-		op := token.ADD
-		if s.Tok == token.DEC {
-			op = token.SUB
-		}
-		one := val{untyped: true, konst: true, isInt: true, rat: ratOne()}
-		v, err := f.binary(s, op, cur, one)
-		if err != nil {
-			return "", err
-		}
-		l, err := f.assign(s, s.X, v, false, e, ind)
-		if err != nil {
-			return "", err
-		}
-		return next(l)
-
-	case *ast.AssignStmt:
-		return f.assignStmt(s, rest, e, k, ind)
-
-	case *ast.ReturnStmt:
-		if k != nil || f.inLoop > 0 {
-			return "", f.errf(s, "return inside a block that can also fall through")
-		}
-		if len(rest) != 0 {
-			return "", f.errf(rest[0], "statement after return")
-		}
-		return f.returnStmt(s, e, ind)
-
-	case *ast.BranchStmt:
-		if s.Tok != token.CONTINUE || s.Label != nil || k == nil || !k.loop {
-			return "", f.errf(s, "unsupported %s", s.Tok)
-		}
-		if len(rest) != 0 {
-			return "", f.errf(rest[0], "statement after continue")
-		}
-		y, err := f.yield(s, k.vars, e)
-		return ind + y, err
-
-	case *ast.IfStmt:
-		return f.ifStmt(s, rest, e, k, ind)
-
-	case *ast.ForStmt, *ast.RangeStmt:
-		l, err := f.loop(st, e, ind)
-		if err != nil {
-			return "", err
-		}
-		return next(l)
-	}
-	return "", f.errf(st, "unsupported statement %T", st)
-}
-
-func nil2(f *fctx) ast.Node { return f.p.funcs[f.key] }
-
-func (f *fctx) assignStmt(s *ast.AssignStmt, rest []ast.Stmt, e env, k *cont, ind string) (string, error) {
-	next := func(pre string) (string, error) {
-		r, err := f.stmts(rest, e, k, ind)
-		if err != nil {
-			return "", err
-		}
-		return pre + r, nil
-	}
-	define := s.Tok == token.DEFINE
-	if len(s.Lhs) > 1 && len(s.Rhs) == 1 {
-		// a, b := f(..)
-		v, err := f.expr(s.Rhs[0], e)
-		if err != nil {
-			return "", err
-		}
-		if s.Tok != token.DEFINE && s.Tok != token.ASSIGN {
-			return "", f.errf(s, "unsupported assignment operator %s", s.Tok)
-		}
-		if v.t.k == kOpt && len(s.Lhs) == 2 {
-			return f.optBind(s, v, rest, e, k, ind)
-		}
-		if v.t.k != kTup || v.t.arr || len(v.t.args) != len(s.Lhs) {
-			return "", f.errf(s, "assignment of %s to %d variables", v.t.goName(), len(s.Lhs))
-		}
-		var names []string
-		for i, l := range s.Lhs {
-			id, ok := l.(*ast.Ident)
-			if !ok {
-				return "", f.errf(s, "unsupported tuple assignment target %s", exprString(l))
-			}
-			if id.Name == "_" {
-				names = append(names, "_")
-				continue
-			}
-			if define {
-				// := declares the names that are new in this scope; re-using a name is a `let` too
-				e[id.Name] = &binding{coq: coqIdent(id.Name), t: v.t.args[i]}
-			} else {
-				b := e.get(id.Name)
-				if b == nil || !b.t.eq(v.t.args[i]) || b.frozen {
-					return "", f.errf(s, "assignment of %s to %s", v.t.args[i].goName(), id.Name)
-				}
-			}
-			names = append(names, e[id.Name].coq)
-		}
-		return next(ind + "let '(" + strings.Join(names, ", ") + ") := " + v.s + " in\n")
-	}
-	if len(s.Lhs) != len(s.Rhs) {
-		return "", f.errf(s, "unsupported assignment of a multi-valued expression")
-	}
-	if len(s.Lhs) > 1 {
-		// a, b = e1, e2: all right-hand sides are evaluated before any assignment
-		if s.Tok != token.ASSIGN && s.Tok != token.DEFINE {
-			return "", f.errf(s, "unsupported tuple assignment operator %s", s.Tok)
-		}
-		var tmp []string
-		var lets string
-		var vs []val
-		for i, r := range s.Rhs {
-			v, err := f.expr(r, e)
-			if err != nil {
-				return "", err
-			}
-			if define {
-				if v, err = f.deflt(r, v); err != nil {
-					return "", err
-				}
-			} else if v.untyped {
-				lv, err := f.expr(s.Lhs[i], e)
-				if err != nil {
-					return "", err
-				}
-				if v, err = f.coerce(r, v, lv.t); err != nil {
-					return "", err
-				}
-			}
-			t := fmt.Sprintf("rgtmp%d", i)
-			tmp = append(tmp, t)
-			lets += ind + "let " + t + " := " + v.s + " in\n"
-			vs = append(vs, val{s: t, t: v.t})
-		}
-		for i, l := range s.Lhs {
-			a, err := f.assign(s, l, vs[i], define, e, ind)
-			if err != nil {
-				return "", err
-			}
-			lets += a
-		}
-		return next(lets)
-	}
-	lhs := s.Lhs[0]
-	// x := T{..} of a struct type of this package: a struct under construction
-	if cl, ok := s.Rhs[0].(*ast.CompositeLit); ok && define {
-		if tid, ok := cl.Type.(*ast.Ident); ok && f.p.structs[tid.Name] != nil {
-			id, ok := lhs.(*ast.Ident)
-			if !ok || k != nil {
-				return "", f.errf(s, "struct construction inside a branch")
-			}
-			lets, b, err := f.structLit(cl, tid.Name, id.Name, e, ind)
-			if err != nil {
-				return "", err
-			}
-			e[id.Name] = b
-			return next(lets)
-		}
-	}
-	v, err := f.expr(s.Rhs[0], e)
-	if err != nil {
-		return "", err
-	}
-	if op, isOp := opAssign[s.Tok]; isOp {
-		cur, err := f.current(lhs, e)
-		if err != nil {
-			return "", err
-		}
-		if v, err = f.binary(s, op, cur, v); err != nil {
-			return "", err
-		}
-	} else if s.Tok != token.ASSIGN && s.Tok != token.DEFINE {
-		return "", f.errf(s, "unsupported assignment operator %s", s.Tok)
-	}
-	l, err := f.assign(s, lhs, v, define, e, ind)
-	if err != nil {
-		return "", err
-	}
-	return next(l)
-}
-
-// c, err := g(..); if err != nil { A }; rest   ->   match g .. with None => A | Some c => rest end
-func (f *fctx) optBind(s *ast.AssignStmt, v val, rest []ast.Stmt, e env, k *cont, ind string) (string, error) {
-	if k != nil {
-		return "", f.errf(s, "call of a function returning an error inside a branch")
-	}
-	id0, ok0 := s.Lhs[0].(*ast.Ident)
-	id1, ok1 := s.Lhs[1].(*ast.Ident)
-	if !ok0 || !ok1 || id1.Name == "_" || len(rest) == 0 {
-		return "", f.errf(s, "the error result must be tested by the next statement")
-	}
-	ifs, ok := rest[0].(*ast.IfStmt)
-	if !ok || ifs.Init != nil || ifs.Else != nil || !terminates(ifs.Body.List) {
-		return "", f.errf(s, "the error result must be tested by `if %s != nil { .. return }` next", id1.Name)
-	}
-	be, ok := ifs.Cond.(*ast.BinaryExpr)
-	if !ok || be.Op != token.NEQ || exprString(be.X) != id1.Name || !isNil(be.Y, e) {
-		return "", f.errf(s, "the error result must be tested by `if %s != nil { .. return }` next", id1.Name)
-	}
-	errEnv := e.clone()
-	errEnv[id1.Name] = &binding{coq: "?", t: typ{k: kOpaque, named: "error"}}
-	if id0.Name != "_" {
-		z, _ := v.t.args[0].zero()
-		errEnv[id0.Name] = &binding{coq: z, t: v.t.args[0]}
-	}
-	a, err := f.stmts(ifs.Body.List, errEnv, nil, ind+"    ")
-	if err != nil {
-		return "", err
-	}
-	pat := "_"
-	if id0.Name != "_" {
-		e[id0.Name] = &binding{coq: coqIdent(id0.Name), t: v.t.args[0]}
-		pat = coqIdent(id0.Name)
-	}
-	e[id1.Name] = &binding{coq: "?", t: typ{k: kOpaque, named: "error"}}
-	b, err := f.stmts(rest[1:], e, nil, ind+"    ")
-	if err != nil {
-		return "", err
-	}
-	return ind + "match " + v.s + " with\n" + ind + "| None =>\n" + a + "\n" + ind + "| Some " + pat + " =>\n" + b + "\n" + ind + "end", nil
-}
-
-func (f *fctx) structLit(x *ast.CompositeLit, sname, goVar string, e env, ind string) (string, *binding, error) {
-	b := &binding{coq: coqIdent(goVar), structName: sname, fields: map[string]*binding{}}
-	var lets strings.Builder
-	for _, el := range x.Elts {
-		kv, ok := el.(*ast.KeyValueExpr)
-		if !ok {
-			return "", nil, f.errf(x, "positional %s literal", sname)
-		}
-		key, ok := kv.Key.(*ast.Ident)
-		if !ok {
-			return "", nil, f.errf(x, "unsupported key in %s literal", sname)
-		}
-		if f.opt != nil && f.opt.SkipFields[key.Name] {
-			continue
-		}
-		v, err := f.expr(kv.Value, e)
-		if err != nil {
-			return "", nil, err
-		}
-		l, err := f.setField(kv, b, goVar, key.Name, v, ind)
-		if err != nil {
-			return "", nil, err
-		}
-		lets.WriteString(l)
-	}
-	return lets.String(), b, nil
-}
-
-// the value a struct under construction stands for: the tuple of its modelled fields, in
-// declaration order (fields listed in SkipFields are left out; the others must have been set)
-func (f *fctx) structValue(n ast.Node, b *binding) (string, typ, error) {
-	var vs []string
-	var ts []typ
-	for _, fl := range f.p.structs[b.structName].Fields.List {
-		for _, fn := range fl.Names {
-			if f.opt != nil && f.opt.SkipFields[fn.Name] {
-				continue
-			}
-			fb, ok := b.fields[fn.Name]
-			if !ok {
-				return "", typ{}, f.errf(n, "field %s.%s is neither set nor listed as not modelled", b.structName, fn.Name)
-			}
-			vs, ts = append(vs, fb.coq), append(ts, fb.t)
-		}
-	}
-	if len(vs) == 1 {
-		return vs[0], ts[0], nil
-	}
-	return "(" + strings.Join(vs, ", ") + ")", tupType(ts...), nil
-}
-
-func (f *fctx) fallOff(ind string, e env) (string, error) {
-	if f.recv != "" {
-		b := e.get(f.recv)
-		if b == nil {
-			return "", fmt.Errorf("rendergen: %s.%s: receiver lost", f.p.name, f.key)
-		}
-		return ind + b.coq, nil
-	}
-	return "", fmt.Errorf("rendergen: %s.%s: control reaches the end of the function without a return", f.p.name, f.key)
-}
-
-func (f *fctx) returnStmt(s *ast.ReturnStmt, e env, ind string) (string, error) {
-	if f.recv != "" {
-		if len(s.Results) != 0 {
-			return "", f.errf(s, "return of a value from a method translated as a receiver update")
-		}
-		return f.fallOff(ind, e)
-	}
-	if len(s.Results) == 0 {
-		if len(f.named) == 0 {
-			return "", f.errf(s, "return without a value")
-		}
-		y, err := f.yield(s, f.named, e)
-		return ind + y, err
-	}
-	if f.ret.k == kOpt {
-		if len(s.Results) != 2 {
-			return "", f.errf(s, "return of %d values", len(s.Results))
-		}
-		if !isNil(s.Results[1], e) {
-			// the error value: ErrMsg(..), errors.New(..), fmt.Errorf(..), err - only nil-ness matters
-			switch x := s.Results[1].(type) {
-			case *ast.CallExpr:
-			case *ast.Ident:
-				if b, ok := e[x.Name]; !ok || b.t.named != "error" {
-					return "", f.errf(s, "unsupported error result")
-				}
-			default:
-				return "", f.errf(s, "unsupported error result")
-			}
-			return ind + "None", nil
-		}
-		v, err := f.retValue(s, s.Results[0], f.ret.args[0], e)
-		if err != nil {
-			return "", err
-		}
-		return ind + "(Some " + v + ")", nil
-	}
-	if f.ret.k == kTup && !f.ret.arr && len(f.ret.fields) == 0 && f.ret.named == "" && len(s.Results) == len(f.ret.args) && len(s.Results) > 1 {
-		var vs []string
-		for i, r := range s.Results {
-			v, err := f.retValue(s, r, f.ret.args[i], e)
-			if err != nil {
-				return "", err
-			}
-			vs = append(vs, v)
-		}
-		return ind + "(" + strings.Join(vs, ", ") + ")", nil
-	}
-	if len(s.Results) != 1 {
-		return "", f.errf(s, "return of %d values", len(s.Results))
-	}
-	// return &dc of a struct under construction
-	if u, ok := s.Results[0].(*ast.UnaryExpr); ok && u.Op == token.AND {
-		if id, ok := u.X.(*ast.Ident); ok {
-			if b := e[id.Name]; b != nil && b.fields != nil {
-				v, t, err := f.structValue(s, b)
-				if err != nil {
-					return "", err
-				}
-				if f.ret.k == kStruct {
-					f.ret = t
-				}
-				if !t.eq(f.ret) {
-					return "", f.errf(s, "two returns of different struct values")
-				}
-				return ind + v, nil
-			}
-		}
-	}
-	v, err := f.retValue(s, s.Results[0], f.ret, e)
-	if err != nil {
-		return "", err
-	}
-	return ind + v, nil
-}
-
-func (f *fctx) retValue(s ast.Node, r ast.Expr, want typ, e env) (string, error) {
-	if isNil(r, e) && want.k == kList && want.n < 0 {
-		return nilOf(want), nil
-	}
-	v, err := f.expr(r, e)
-	if err != nil {
-		return "", err
-	}
-	if v, err = f.coerce(s, v, want); err != nil {
-		return "", err
-	}
-	if !v.t.eq(want) {
-		return "", f.errf(s, "return of %s, expected %s", v.t.goName(), want.goName())
-	}
-	return v.s, nil
-}
-
-// prefix target: the values of the Yield expressions just before statement st
-func (f *fctx) cutHere(st ast.Stmt, e env, ind string) (string, error) {
-	var vs []string
-	var ts []typ
-	for _, y := range f.opt.Yield {
-		ex, err := parser.ParseExpr(y)
-		if err != nil {
-			return "", f.errf(st, "yield expression %q: %v", y, err)
-		}
-		v, err := f.expr(ex, e)
-		if err != nil {
-			return "", fmt.Errorf("%v (yield expression %q)", err, y)
-		}
-		if v, err = f.deflt(st, v); err != nil {
-			return "", err
-		}
-		vs, ts = append(vs, v.s), append(ts, v.t)
-	}
-	f.cut = true
-	if len(vs) == 1 {
-		f.ret = ts[0]
-		return ind + vs[0], nil
-	}
-	f.ret = tupType(ts...)
-	return ind + "(" + strings.Join(vs, ", ") + ")", nil
-}
-
-func (f *fctx) ifStmt(s *ast.IfStmt, rest []ast.Stmt, e env, k *cont, ind string) (string, error) {
-	if s.Init != nil {
-		return "", f.errf(s, "if statement with an init clause")
-	}
-	c, err := f.expr(s.Cond, e)
-	if err != nil {
-		return "", err
-	}
-	if c.t.k != kBool {
-		return "", f.errf(s, "condition is not boolean")
-	}
-	thenL, elseL := s.Body.List, stmtList(s.Else)
-	tt, et := terminates(thenL), terminates(elseL)
-	switch {
-	case tt || et:
-		// `if c { ...; return e }` followed by the rest: the rest is the other branch.  Allowed in
-		// the function body (return) and directly in a loop body (continue).
-		if k != nil && !k.loop {
-			return "", f.errf(s, "return / continue inside a block that can also fall through")
-		}
-		var a, b string
-		if tt && et {
-			if len(rest) != 0 {
-				return "", f.errf(rest[0], "unreachable statement")
-			}
-			if a, err = f.stmts(thenL, e.clone(), k, ind+"  "); err != nil {
-				return "", err
-			}
-			if b, err = f.stmts(elseL, e.clone(), k, ind); err != nil {
-				return "", err
-			}
-		} else if tt {
-			if len(elseL) != 0 && declares(elseL) && len(rest) != 0 {
-				return "", f.errf(s, "else block declaring variables before fall-through code")
-			}
-			if a, err = f.stmts(thenL, e.clone(), k, ind+"  "); err != nil {
-				return "", err
-			}
-			if b, err = f.stmts(append(append([]ast.Stmt{}, elseL...), rest...), e, k, ind); err != nil {
-				return "", err
-			}
-		} else {
-			if declares(thenL) && len(rest) != 0 {
-				return "", f.errf(s, "then block declaring variables before fall-through code")
-			}
-			if b, err = f.stmts(elseL, e.clone(), k, ind); err != nil {
-				return "", err
-			}
-			if a, err = f.stmts(append(append([]ast.Stmt{}, thenL...), rest...), e, k, ind+"  "); err != nil {
-				return "", err
-			}
-		}
-		out := ind + "if " + c.s + " then\n" + a + "\n"
-		if strings.HasPrefix(strings.TrimLeft(b, " "), "if ") {
-			return out + ind + "else " + strings.TrimLeft(b, " "), nil
-		}
-		return out + ind + "else\n" + indentMore(b), nil
-	}
-	if containsExit(thenL) || containsExit(elseL) {
-		return "", f.errf(s, "if statement that returns / continues on some paths and falls through on others")
-	}
-	var vars []string
-	if err := f.assignedOuter(thenL, e, nil, &vars); err != nil {
-		return "", err
-	}
-	if err := f.assignedOuter(elseL, e, nil, &vars); err != nil {
-		return "", err
-	}
-	if len(vars) == 0 {
-		return "", f.errf(s, "if statement without effect")
-	}
-	pat, _, err := f.pattern(s, vars, e)
-	if err != nil {
-		return "", err
-	}
-	t := &cont{vars: vars}
-	a, err := f.stmts(thenL, e.clone(), t, ind+"    ")
-	if err != nil {
-		return "", err
-	}
-	b, err := f.stmts(elseL, e.clone(), t, ind+"    ")
-	if err != nil {
-		return "", err
-	}
-	wrap := func(x string) string {
-		tr := strings.TrimLeft(x, " ")
-		if strings.Contains(x, "\n") || strings.HasPrefix(tr, "let ") || strings.HasPrefix(tr, "if ") || strings.HasPrefix(tr, "match ") {
-			return x[:len(x)-len(tr)] + "(" + tr + ")"
-		}
-		return x
-	}
-	ifx := ind + "  if " + c.s + " then\n" + wrap(a) + "\n" + ind + "  else\n" + wrap(b)
-	r, err := f.stmts(rest, e, k, ind)
-	if err != nil {
-		return "", err
-	}
-	return ind + "let " + pat + " :=\n" + ifx + " in\n" + r, nil
-}
-
-// for i := lo; i < hi; i++ { body }  /  for i := range a  /  for i, v := range a  /  for _, v := range a
-func (f *fctx) loop(st ast.Stmt, e env, ind string) (string, error) {
-	var body *ast.BlockStmt
-	inner := e.clone()
-	var head, iter string // zfor lo hi | fold_left ; the lambda's second binder
-	var pre string        // lets at the start of the body
-	var fold bool
-	var loopVars []string
-	switch s := st.(type) {
-	case *ast.ForStmt:
-		body = s.Body
-		init, ok := s.Init.(*ast.AssignStmt)
-		if !ok || init.Tok != token.DEFINE || len(init.Lhs) != 1 || len(init.Rhs) != 1 {
-			return "", f.errf(s, "loop without `i := lo` initialisation")
-		}
-		iv, ok := init.Lhs[0].(*ast.Ident)
-		if !ok {
-			return "", f.errf(s, "loop variable")
-		}
-		lo, err := f.expr(init.Rhs[0], e)
-		if err != nil {
-			return "", err
-		}
-		if lo, err = f.coerce(s, lo, tInt); err != nil {
-			return "", err
-		}
-		cond, ok := s.Cond.(*ast.BinaryExpr)
-		if !ok || exprString(cond.X) != iv.Name || (cond.Op != token.LSS && cond.Op != token.LEQ) {
-			return "", f.errf(s, "loop condition is not `%s < hi` / `%s <= hi`", iv.Name, iv.Name)
-		}
-		hi, err := f.expr(cond.Y, e)
-		if err != nil {
-			return "", err
-		}
-		if hi, err = f.coerce(s, hi, tInt); err != nil {
-			return "", err
-		}
-		if lo.t.k != kInt || hi.t.k != kInt {
-			return "", f.errf(s, "loop bounds are not integers")
-		}
-		if cond.Op == token.LEQ {
-			hi.s = "(Z.add " + hi.s + " 1%Z)"
-		}
-		stepOK := false
-		switch post := s.Post.(type) {
-		case *ast.IncDecStmt:
-			stepOK = post.Tok == token.INC && exprString(post.X) == iv.Name
-		case *ast.AssignStmt: // i += 1, i = i + 1
-			if len(post.Lhs) == 1 && len(post.Rhs) == 1 && exprString(post.Lhs[0]) == iv.Name {
-				stepOK = post.Tok == token.ADD_ASSIGN && exprString(post.Rhs[0]) == "1" ||
-					post.Tok == token.ASSIGN && (exprString(post.Rhs[0]) == iv.Name+"+1" || exprString(post.Rhs[0]) == "1+"+iv.Name)
-			}
-		}
-		if !stepOK {
-			return "", f.errf(s, "loop step is not `%s++`", iv.Name)
-		}
-		// the bound is evaluated once here: the body may not assign anything it mentions
-		var bvars []string
-		ast.Inspect(cond.Y, func(n ast.Node) bool {
-			if id, ok := n.(*ast.Ident); ok {
-				bvars = append(bvars, id.Name)
-			}
-			return true
-		})
-		loopVars = append(bvars, iv.Name)
-		inner[iv.Name] = &binding{coq: coqIdent(iv.Name), t: tInt}
-		head, iter = "zfor "+lo.s+" "+hi.s, "("+coqIdent(iv.Name)+" : Z)"
-	case *ast.RangeStmt:
-		body = s.Body
-		if s.Tok != token.DEFINE {
-			return "", f.errf(s, "range loop assigning existing variables")
-		}
-		a, err := f.expr(s.X, e)
-		if err != nil {
-			return "", err
-		}
-		if a.t.k != kList {
-			return "", f.errf(s, "range over %s", a.t.goName())
-		}
-		key, _ := s.Key.(*ast.Ident)
-		value, _ := s.Value.(*ast.Ident)
-		if s.Key != nil && key == nil || s.Value != nil && value == nil {
-			return "", f.errf(s, "range variables")
-		}
-		ast.Inspect(s.X, func(n ast.Node) bool {
-			if id, ok := n.(*ast.Ident); ok {
-				loopVars = append(loopVars, id.Name)
-			}
-			return true
-		})
-		useKey := key != nil && key.Name != "_"
-		useVal := value != nil && value.Name != "_"
-		z, _ := a.t.args[0].zero()
-		switch {
-		case useKey:
-			inner[key.Name] = &binding{coq: coqIdent(key.Name), t: tInt}
-			head, iter = "zfor 0%Z (zlen "+a.s+")", "("+coqIdent(key.Name)+" : Z)"
-			loopVars = append(loopVars, key.Name)
-			if useVal {
-				// the element is read from the value the slice had when the loop started
-				inner[value.Name] = &binding{coq: coqIdent(value.Name), t: a.t.args[0]}
-				pre = "let " + coqIdent(value.Name) + " := (znth " + coqIdent(key.Name) + " " + a.s + " " + z + ") in\n"
-				loopVars = append(loopVars, value.Name)
-			} else if rk, ok := lhsKey(s.X); ok {
-				// for i := range a { a[i] = .. } is fine: only the length is read
-				loopVars = removeStr(loopVars, strings.SplitN(rk, ".", 2)[0])
-				if !strings.Contains(rk, ".") {
-					loopVars = removeStr(loopVars, rk)
-				}
-			}
-		case useVal:
-			inner[value.Name] = &binding{coq: coqIdent(value.Name), t: a.t.args[0]}
-			head, iter, fold = "fold_left", "("+coqIdent(value.Name)+" : "+a.t.args[0].coqAtom()+")", true
-			pre = ""
-			loopVars = append(loopVars, value.Name)
-			head += "|" + a.s
-		default:
-			return "", f.errf(s, "range loop without variables")
-		}
-	}
-	var vars []string
-	if err := f.assignedOuter(body.List, inner, nil, &vars); err != nil {
-		return "", err
-	}
-	if len(vars) == 0 {
-		return "", f.errf(st, "loop without effect on the variables of the function")
-	}
-	for _, v := range vars {
-		root := strings.SplitN(v, ".", 2)[0]
-		for _, lv := range loopVars {
-			if lv == v || lv == root && !strings.Contains(v, ".") {
-				return "", f.errf(st, "the loop body assigns %s, which the loop header reads", v)
-			}
-		}
-	}
-	pat, ty, err := f.pattern(st, vars, e)
-	if err != nil {
-		return "", err
-	}
-	f.inLoop++
-	b, err := f.stmts(body.List, inner, &cont{vars: vars, loop: true}, ind+"      ")
-	f.inLoop--
-	if err != nil {
-		return "", err
-	}
-	init, err := f.yield(st, vars, e)
-	if err != nil {
-		return "", err
-	}
-	stName := "rgst"
-	lam := "(fun (" + stName + " : " + ty + ") " + iter + " =>\n"
-	if strings.HasPrefix(pat, "'") {
-		lam += ind + "      let " + pat + " := " + stName + " in\n"
-	} else {
-		lam = "(fun (" + pat + " : " + ty + ") " + iter + " =>\n"
-	}
-	if pre != "" {
-		lam += ind + "      " + pre
-	}
-	lam += b + ")"
-	if fold {
-		parts := strings.SplitN(head, "|", 2)
-		return ind + "let " + pat + " :=\n" + ind + "    fold_left " + lam + " " + parts[1] + " " + init + " in\n", nil
-	}
-	return ind + "let " + pat + " :=\n" + ind + "    " + head + " " + lam + " " + init + " in\n", nil
-}
-
-func removeStr(l []string, s string) []string {
-	var out []string
-	for _, x := range l {
-		if x != s {
-			out = append(out, x)
-		}
-	}
-	return out
-}
-
-// ---------------------------------------------------------------- trace targets
-
-// the sink a call statement feeds: 0 = a call of the traced function itself, 1 = an output
-func (f *fctx) sinkOf(st ast.Stmt) (*ast.CallExpr, int, bool) {
-	es, ok := st.(*ast.ExprStmt)
-	if !ok {
-		return nil, 0, false
-	}
-	c, ok := es.X.(*ast.CallExpr)
-	if !ok {
-		return nil, 0, false
-	}
-	switch f.opt.Trace[exprString(c.Fun)] {
-	case "call":
-		return c, 0, true
-	case "out":
-		return c, 1, true
-	}
-	return nil, 0, false
-}
-
-func (f *fctx) hasSink(list []ast.Stmt) bool {
-	found := false
-	for _, s := range list {
-		ast.Inspect(s, func(n ast.Node) bool {
-			if st, ok := n.(ast.Stmt); ok {
-				if _, _, is := f.sinkOf(st); is {
-					found = true
-				}
-			}
-			return true
-		})
-	}
-	return found
-}
-
-// traceStmt handles, at the top level of a trace target: a sink call (one event), an if statement
-// whose branches contain sink calls (the events of the branch taken), a bare return (no more events)
-func (f *fctx) traceStmt(st ast.Stmt, rest []ast.Stmt, e env, ind string) (string, bool, error) {
-	if c, kind, ok := f.sinkOf(st); ok {
-		// the payload: the arguments the translator models (writers, the SDF are left out)
-		var vs []string
-		var ts []typ
-		for _, a := range c.Args {
-			if id, isId := a.(*ast.Ident); isId {
-				if b := e[id.Name]; b != nil && b.t.k == kOpaque {
-					continue
-				}
-			}
-			v, err := f.structArg(a, e)
-			if err != nil {
-				return "", true, err
-			}
-			if v, err = f.deflt(a, v); err != nil {
-				return "", true, err
-			}
-			vs, ts = append(vs, v.s), append(ts, v.t)
-		}
-		if len(vs) == 0 {
-			return "", true, f.errf(st, "traced call without a modelled argument")
-		}
-		pv, pt := vs[0], ts[0]
-		if len(vs) > 1 {
-			pv, pt = "("+strings.Join(vs, ", ")+")", tupType(ts...)
-		}
-		if f.evSet[kind] && !f.evT[kind].eq(pt) {
-			return "", true, f.errf(st, "traced calls with payloads of different types")
-		}
-		f.evT[kind], f.evSet[kind] = pt, true
-		r, err := f.stmts(rest, e, nil, ind)
-		if err != nil {
-			return "", true, err
-		}
-		ctor := []string{"RgCall", "RgOut"}[kind]
-		return ind + "((" + ctor + " " + pv + ") ::\n" + r + ")", true, nil
-	}
-	switch s := st.(type) {
-	case *ast.ReturnStmt:
-		if len(s.Results) == 0 {
-			if len(rest) != 0 {
-				return "", true, f.errf(rest[0], "statement after return")
-			}
-			return ind + "[]", true, nil
-		}
-	case *ast.IfStmt:
-		thenL, elseL := s.Body.List, stmtList(s.Else)
-		if !f.hasSink(thenL) && !f.hasSink(elseL) {
-			return "", false, nil
-		}
-		if s.Init != nil {
-			return "", true, f.errf(s, "if statement with an init clause")
-		}
-		c, err := f.expr(s.Cond, e)
-		if err != nil {
-			return "", true, err
-		}
-		if c.t.k != kBool {
-			return "", true, f.errf(s, "condition is not boolean")
-		}
-		a, err := f.stmts(thenL, e.clone(), nil, ind+"    ")
-		if err != nil {
-			return "", true, err
-		}
-		b, err := f.stmts(elseL, e.clone(), nil, ind+"    ")
-		if err != nil {
-			return "", true, err
-		}
-		if terminates(thenL) || terminates(elseL) {
-			return "", true, f.errf(s, "return inside a traced branch")
-		}
-		r, err := f.stmts(rest, e, nil, ind+"  ")
-		if err != nil {
-			return "", true, err
-		}
-		return ind + "((if " + c.s + " then (\n" + a + ")\n" + ind + "  else (\n" + b + ")) ++\n" + r + ")", true, nil
-	}
-	return "", false, nil
-}
+func (f *fctx) goTypeIn(x ast.Expr, en env) (typ, error) { return f.g.goTypeIn(f.p, f.file, x, en) }
